@@ -1194,10 +1194,13 @@ type Reference struct {
 }
 
 func (r Reference) ObjValue() Object {
-	if log.LogDebug() {
-		log.Debugf("Reference Value() %s -> %s", r.Name, r.RefEnv.store[r.Name].Inspect())
+	v, found := r.RefEnv.store[r.Name]
+	if !found { // the binding was deleted (del) after this reference was made: error object instead of a nil Object.
+		return Error{Value: "reference to deleted identifier: " + r.Name}
 	}
-	v := r.RefEnv.store[r.Name]
+	if log.LogDebug() {
+		log.Debugf("Reference Value() %s -> %s", r.Name, v.Inspect())
+	}
 	if v == r {
 		panic("Self reference")
 	}
